@@ -7,6 +7,7 @@ require (
 	github.com/GuanceCloud/grok v1.1.2
 	github.com/GuanceCloud/platypus v0.0.0
 	github.com/antchfx/xmlquery v1.3.12
+	github.com/influxdata/influxdb1-client v0.0.0-20220302092344-a9ab5670611c
 	github.com/spf13/cast v1.5.0
 	go.uber.org/zap v1.23.0
 )
